@@ -82,6 +82,26 @@ def union (a b : List Node) : List Node := b.foldl setAdd a
 /-- `a.intersection(b)` -/
 def inter (a b : List Node) : List Node := a.filter fun x => b.contains x
 
+/-- the contact graph `G` as the translated code reads it -/
+structure Contact where
+  nodes : List Node                 -- G.nodes() / list(G)
+  nbrs : Node → List Node           -- G.neighbors(u)
+  edges : List (Node × Node)        -- G.edges()
+deriving Inhabited
+
+def Contact.order (C : Contact) : Int := (C.nodes.length : Int)
+def Contact.hasNodeS (C : Contact) (x : Src) : Bool := match x with | .inl u => C.nodes.contains u | .inr _ => false
+
+/-- a computation of the discrete-time code that uses no callbacks, inside `PM` -/
+def liftDM {α : Type} (x : DM α) : PM α := fun s => do
+  let (a, _) ← x { answers := [] }
+  pure (a, s)
+
+/-- `random.choice(seq)` for a list of nodes -/
+def choiceNode (seq : List Node) : PM Node := do
+  let i ← liftT (TM.popChoice (seq.map PyTM.encNode))
+  liftE (PyRT.listChoice seq i)
+
 /-- the networkx routines used by the translated code -/
 structure NX where
   descendants : DiG → Node → Except String (List Node)       -- NetworkXError when the node is absent
